@@ -39,6 +39,7 @@ func stackOf(c *engine.Context) *stackModel {
 		}
 		p := c.P
 		m := stackty.NewModel(p)
+		m.EdgeInfeasible = literalLenEdgeInfeasible(c)
 		sm.m = m
 		// Execute method of the generated parser
 		var execute *ssa.Function
@@ -63,6 +64,7 @@ func stackOf(c *engine.Context) *stackModel {
 		// whose producer types are all handled are infeasible
 		popSlots := in.PopSlots
 		m2 := stackty.NewModel(p)
+		m2.EdgeInfeasible = m.EdgeInfeasible
 		m2.DynTypesOf = func(v ssa.Value) ([]types.Type, bool) {
 			pops, consts, ok := m2.ElementSources(v)
 			if !ok {
